@@ -75,6 +75,48 @@ def fop(op, a, b):
     raise ValueError(op)
 
 
+UFUNC = {'+': np.add, '-': np.subtract, '*': np.multiply, '/': np.true_divide, '**': np.power}
+
+
+def representable(v, dt):
+    """is the exact value v representable in dtype dt (or, for a weak Python scalar, in Python)?"""
+    if v is None:
+        return False
+    if isinstance(dt, tuple):
+        return True if dt[1] is int else exact_float(v)
+    if dt.kind in 'iu':
+        info = np.iinfo(dt)
+        return v.denominator == 1 and info.min <= v.numerator <= info.max
+    if dt.kind == 'b':
+        return v in (0, 1)
+    if not exact_float(v):
+        return False
+    if dt.itemsize < 8:
+        with np.errstate(all='ignore'):
+            return Fraction(float(np.asarray(float(v)).astype(dt))) == v
+    return True
+
+
+def result_dtype(op, da, db, bvals):
+    """dtype numpy gives op(a, b) (its own type resolution; Python scalars are weak) and whether the operation is
+    defined for every element (numpy refuses integer ** negative integer and out-of-range Python integers)"""
+    wa, wb = isinstance(da, tuple), isinstance(db, tuple)
+    if wa and wb:
+        isfloat = da[1] is float or db[1] is float or op == '/' or (op == '**' and db[2] < 0)
+        return ('weak', float if isfloat else int, fop(op, da[2], db[2])), True
+    try:
+        dt = UFUNC[op].resolve_dtypes((da[1] if wa else da, db[1] if wb else db, None))[2]
+    except Exception:
+        return np.dtype('float64'), False
+    ok = True
+    for w, d in ((wa, da), (wb, db)):
+        if w and d[1] is int and dt.kind in 'iu' and not representable(d[2], dt):
+            ok = False          # OverflowError: Python integer out of bounds for the dtype
+    if op == '**' and dt.kind in 'iu' and any(y is not None and y < 0 for y in bvals.ravel()):
+        ok = False              # ValueError: integers to negative integer powers
+    return dt, ok
+
+
 def leaves(t):
     if t[0] == 'cid':
         return [t[1]]
@@ -96,7 +138,7 @@ def tree_str(t, names):
     if t[0] == 'cid':
         return '{%s}' % names[t[1]]
     if t[0] == 'const':
-        return '(%r)' % float(t[1])
+        return ('(%d)' % int(t[1])) if len(t) > 2 else ('(%r)' % float(t[1]))
     return '(%s %s %s)' % (tree_str(t[2], names), t[1], tree_str(t[3], names))
 
 
@@ -132,12 +174,21 @@ class World(object):
         self.next = 0
         self.base = {}      # number -> object array of Fractions (full shape): the oracle's inputs
         self.defs = {}      # number -> (how, tree): the oracle's record of the derived attributes
+        self.linkobj = {}   # number -> the link object the attribute was registered with (any kind of definition)
         self.links = {}     # number -> the BinaryComponentLink object of an attribute defined by operators (for sharing)
         self.model_comps = []
         self.nlabel = 0
-        for j, (flags, small) in enumerate(spec['stored']):
+        self.dtype = {}     # number -> numpy dtype of a stored / pixel / world attribute (what data[cid] returns)
+        for j, st in enumerate(spec['stored']):
+            flags, small = st[0], st[1]
+            dts = st[2] if len(st) > 2 else 'float64'
             small_shape = tuple(1 if f else n for n, f in zip(shape, flags))
-            arr = np.array([float(x) for x in small], dtype=float).reshape(small_shape)
+            if dts == 'float64':
+                arr = np.array([float(x) for x in small], dtype=float).reshape(small_shape)
+            elif dts.startswith('float'):
+                arr = np.array([float(x) for x in small], dtype=dts).reshape(small_shape)
+            else:
+                arr = np.array([int(x) for x in small], dtype=dts).reshape(small_shape)
             full = np.broadcast_to(arr, shape) if any(flags) else arr.copy()
             lab = self.fresh_label()
             self.d.add_component(Component(full), lab)
@@ -146,6 +197,7 @@ class World(object):
             obj = np.empty(small_shape, dtype=object)
             obj.ravel()[:] = list(small)
             self.base[n] = np.broadcast_to(obj, shape)
+            self.dtype[n] = np.asarray(self.d[self.objs[n]]).dtype      # (bool is stored as int64 by glue)
             self.model_comps.append((n, (1, [B(flags), (0, [fr_enc(x) for x in small])])))
         # pixel / world components were numbered when the first component was added: describe them for model and oracle
         pre = []
@@ -155,6 +207,7 @@ class World(object):
             o = np.empty(shape, dtype=object)
             o.ravel()[:] = [Fraction(int(x)) for x in idx.ravel()]
             self.base[n] = o
+            self.dtype[n] = np.asarray(self.d[c]).dtype
             pre.append((n, (2, [k])))
         for k, c in enumerate(self.d.world_component_ids):
             n = self.num[id(c)]
@@ -162,6 +215,7 @@ class World(object):
             o = np.empty(shape, dtype=object)
             o.ravel()[:] = [Fraction(float(x)) for x in vals.ravel()]
             self.base[n] = o
+            self.dtype[n] = np.asarray(self.d[c]).dtype
             line = np.moveaxis(vals, k, 0).reshape(shape[k], -1)[:, 0]
             off = Fraction(float(line[0]))
             sc = Fraction(float(line[1])) - off if shape[k] > 1 else Fraction(0)
@@ -198,7 +252,7 @@ class World(object):
         if t[0] == 'cid':
             return self.objs[t[1]]
         if t[0] == 'const':
-            return float(t[1])
+            return int(t[1]) if len(t) > 2 else float(t[1])      # ('const', q, 'int'): handed to glue as a Python int
         if t[0] == 'ref':
             return self.links[t[1]]       # the very link object of attribute t[1]: a shared sub-expression
         return PYOP[t[1]](self.build_ops(t[2]), self.build_ops(t[3]))
@@ -230,7 +284,8 @@ class World(object):
             names = dict((n, self.objs[n].label) for n in ids)
             cmd = tree_str(t, names)
             pc = ParsedCommand(cmd, dict((names[n], self.objs[n]) for n in ids))
-            self.d.add_component_link(ParsedComponentLink(to_id, pc), label=None if target is None else to_id)
+            link = ParsedComponentLink(to_id, pc)
+            self.d.add_component_link(link, label=None if target is None else to_id)
         else:
             ids = dedup(leaves(t))
 
@@ -242,6 +297,7 @@ class World(object):
                 return PYOP[t[1]](ev(t[2], env), ev(t[3], env))
 
             def using(*args):
+                args = [np.asarray(a, dtype=float) for a in args]      # the user function computes in 64-bit floats
                 with np.errstate(all='ignore'):
                     r = np.asarray(ev(t, dict(zip(ids, args))), dtype=float)
                 return r.ravel() if how == 3 else r
@@ -256,50 +312,120 @@ class World(object):
             self.links.pop(target, None)
             if link0 is not None:
                 self.links[target] = link0
+            self.linkobj[target] = link
             return target
         if self.next != before + 1:
             raise RuntimeError('add_derived did not create exactly one component')
         self.defs[before] = (how, ti)
         if link0 is not None:
             self.links[before] = link0
+        self.linkobj[before] = link
+        return before
+
+    def add_alias(self, n):
+        """register the link object of attribute n under a second name (add_component_link stamps the link with the new name)"""
+        lab = self.fresh_label()
+        self.d.add_component_link(self.linkobj[n], lab)
+        before = self.next
+        self.register_new()
+        if self.next != before + 1:
+            raise RuntimeError('registering a link under a second name did not create exactly one component')
+        self.defs[before] = self.defs[n]
+        self.linkobj[before] = self.linkobj[n]
+        if n in self.links:
+            self.links[before] = self.links[n]
+        return before
+
+    def add_targeting(self, how, t, target):
+        """a link that says "attribute <target> can be computed as t", registered as a derived attribute under a NEW name"""
+        from glue.core.component import DerivedComponent
+        from glue.core.component_link import ComponentLink
+        from glue.core.parse import ParsedCommand, ParsedComponentLink
+        t = self.inline(t)
+        ids = dedup(leaves(t))
+        to_id = self.objs[target]
+        if how == 0:
+            link = self.build_ops(t)
+            link.set_to_id(to_id)
+        elif how == 1:
+            names = dict((n, self.objs[n].label) for n in ids)
+            link = ParsedComponentLink(to_id, ParsedCommand(tree_str(t, names), dict((names[n], self.objs[n]) for n in ids)))
+        else:
+            def ev(t, env):
+                if t[0] == 'cid':
+                    return env[t[1]]
+                if t[0] == 'const':
+                    return float(t[1])
+                return PYOP[t[1]](ev(t[2], env), ev(t[3], env))
+
+            def using(*args):
+                args = [np.asarray(a, dtype=float) for a in args]
+                with np.errstate(all='ignore'):
+                    return np.asarray(ev(t, dict(zip(ids, args))), dtype=float)
+            link = ComponentLink([self.objs[n] for n in ids], to_id, using=using)
+        self.d.add_component(DerivedComponent(self.d, link), self.fresh_label())
+        before = self.next
+        self.register_new()
+        if self.next != before + 1:
+            raise RuntimeError('adding the derived component did not create exactly one component')
+        self.defs[before] = (how, t)
+        self.linkobj[before] = link
         return before
 
     # -- oracle
     def expected_full(self, n, memo=None):
         """object array (full shape) of Fraction/None, and boolean array 'exact at every step'"""
-        memo = {} if memo is None else memo
+        v, ex, dt = self._eval(n, {} if memo is None else memo)
+        return v, ex
+
+    def _eval(self, n, memo):
         if n in memo:
             return memo[n]
         shape = tuple(self.spec['shape'])
         if n in self.base:
-            v = self.base[n]
-            ex = np.ones(shape, dtype=bool)
+            memo[n] = (self.base[n], np.ones(shape, dtype=bool), self.dtype.get(n, np.dtype('float64')))
         else:
             how, t = self.defs[n]
-            v, ex = self.eval_tree(t, memo)
-        memo[n] = (v, ex)
+            memo[n] = self.eval_tree(t, memo, how)
         return memo[n]
 
-    def eval_tree(self, t, memo):
+    def eval_tree(self, t, memo, how):
+        """-> (values, exact mask, dtype).  The dtype of every node is the one numpy's own type resolution gives for the way
+        the UNCHANGED code evaluates that kind of definition: operator links turn a constant into a 64-bit array, parsed text
+        leaves it a weak Python scalar, the user functions of this harness compute in float64.  An element is in the exact
+        class when every intermediate value is representable in the dtype of its node."""
         shape = tuple(self.spec['shape'])
         if t[0] == 'cid':
-            return self.expected_full(t[1], memo)
+            v, ex, dt = self._eval(t[1], memo)
+            if how in (2, 3):
+                ex = ex & np.array([x is not None and exact_float(x) for x in v.ravel()]).reshape(shape)
+                dt = np.dtype('float64')
+            return v, ex, dt
         if t[0] == 'const':
             o = np.empty(shape, dtype=object)
             o.ravel()[:] = [t[1]] * int(np.prod(shape))
-            return o, np.ones(shape, dtype=bool)
-        a, ea = self.eval_tree(t[2], memo)
-        b, eb = self.eval_tree(t[3], memo)
+            isint = len(t) > 2
+            if how == 1:
+                dt = ('weak', int if isint else float, t[1])
+            elif how == 0 and isint:
+                dt = np.dtype('int64')
+            else:
+                dt = np.dtype('float64')
+            ok = representable(t[1], np.dtype('int64') if (isint and how != 2 and how != 3) else np.dtype('float64'))
+            return o, np.full(shape, bool(ok)), dt
+        a, ea, da = self.eval_tree(t[2], memo, how)
+        b, eb, db = self.eval_tree(t[3], memo, how)
+        dt, ok_all = result_dtype(t[1], da, db, b)
         o = np.empty(shape, dtype=object)
         ex = np.empty(shape, dtype=bool)
-        fa, fb, fo, fe = a.ravel(), b.ravel(), [], []
-        for x, y, e1, e2 in zip(fa, fb, ea.ravel(), eb.ravel()):
+        fo, fe = [], []
+        for x, y, e1, e2 in zip(a.ravel(), b.ravel(), ea.ravel(), eb.ravel()):
             r = fop(t[1], x, y)
             fo.append(r)
-            fe.append(bool(e1 and e2 and r is not None and exact_float(r)))
+            fe.append(bool(ok_all and e1 and e2 and r is not None and representable(r, dt)))
         o.ravel()[:] = fo
         ex.ravel()[:] = fe
-        return o, ex
+        return o, ex, dt
 
     def closure(self, n):
         out = {n}
@@ -434,8 +560,24 @@ class Runner(object):
                 W.defs = dict(((newn if m == old else m), (h, rename_tree(t, old, newn))) for m, (h, t) in W.defs.items())
                 if old in W.base:
                     W.base[newn] = W.base.pop(old)
+                    W.dtype[newn] = W.dtype.pop(old)
+                for table in (W.links, W.linkobj):
+                    if old in table:
+                        table[newn] = table.pop(old)
             r['structure'] = W.structure()
             r['oracle'] += check_all_values(W, 'after update_id')
+        elif k in ('alias', 'addto'):
+            before = W.order()
+            try:
+                n = W.add_alias(op[1]) if k == 'alias' else W.add_targeting(op[1], op[2], op[3])
+                r['new'] = n
+                r['how'], r['tree'] = W.defs[n]
+                if W.order() != before + [n]:
+                    r['oracle'].append('adding a derived attribute changed the other components: %r, expected %r' % (W.order(), before + [n]))
+            except Exception as e:
+                r['error'] = type(e).__name__
+            r['structure'] = W.structure()
+            r['oracle'] += check_all_values(W, 'after adding a derived attribute')
         elif k == 'redef':
             before = W.order()
             try:
@@ -628,6 +770,11 @@ def evaluate(R, cases, stream, done=None):
                     ok_model = False
                     break
                 mops.append(['add', op[1], r['tree'], r['new']])
+            elif op[0] in ('alias', 'addto'):
+                if 'new' not in r:
+                    ok_model = False
+                    break
+                mops.append(['add', r['how'], r['tree'], r['new']])
             elif op[0] == 'redef':
                 if 'tree' not in r:
                     ok_model = False
@@ -646,8 +793,8 @@ def evaluate(R, cases, stream, done=None):
     for case, (W, res, ok_model), o in zip(cases, reals, outs):
         nq = sum(1 for op in case['ops'] if op[0] == 'query')
         ncmp = sum(r.get('compared', 0) for r in res)
-        maxd = max([depth(op[2]) for op in case['ops'] if op[0] == 'add'] + [depth(op[3]) for op in case['ops'] if op[0] == 'redef'] + [0])
-        R.count(repr((case['spec'], case['ops'])), nontrivial=ncmp > 0 or any(op[0] in ('remove', 'redef', 'reorder', 'updid') for op in case['ops']), stream=stream, depth=maxd, ndim=len(case['spec']['shape']))
+        maxd = max([depth(op[2]) for op in case['ops'] if op[0] in ('add', 'addto')] + [depth(op[3]) for op in case['ops'] if op[0] == 'redef'] + [0])
+        R.count(repr((case['spec'], case['ops'])), nontrivial=ncmp > 0 or any(op[0] in ('remove', 'redef', 'reorder', 'updid', 'alias', 'addto') for op in case['ops']), stream=stream, depth=maxd, ndim=len(case['spec']['shape']))
         for op in case['ops']:
             R.hist['op_kind'][op[0]] += 1
             if op[0] in ('add', 'redef'):
@@ -669,7 +816,7 @@ def evaluate(R, cases, stream, done=None):
             fails.append((case, 'correspondence', {'model': '%d results for %d ops' % (len(mk), len(res))}))
             continue
         for i, (op, r, mt) in enumerate(zip(case['ops'], res, mk)):
-            if op[0] in ('add', 'remove', 'updid', 'redef', 'reorder'):
+            if op[0] in ('add', 'remove', 'updid', 'redef', 'reorder', 'alias', 'addto'):
                 if is_err(mt):
                     fails.append((case, 'correspondence', {'step': i, 'op': op, 'model': 'error %r' % err_code(mt), 'impl': r['structure']}))
                     break
@@ -798,16 +945,18 @@ def jsonable_case(case):
         if t[0] in ('cid', 'ref'):
             return [t[0], t[1]]
         if t[0] == 'const':
-            return ['const', str(t[1])]
+            return ['const', str(t[1])] + list(t[2:])
         return ['bin', t[1], jt(t[2]), jt(t[3])]
     spec = dict(case['spec'])
-    spec['stored'] = [[list(f), [str(x) for x in v]] for f, v in spec['stored']]
+    spec['stored'] = [[list(st[0]), [str(x) for x in st[1]]] + list(st[2:]) for st in spec['stored']]
     ops = []
     for op in case['ops']:
         if op[0] == 'add':
             ops.append(['add', op[1], jt(op[2])])
         elif op[0] == 'redef':
             ops.append(['redef', op[1], op[2], jt(op[3])])
+        elif op[0] == 'addto':
+            ops.append(['addto', op[1], jt(op[2]), op[3]])
         else:
             ops.append(list(op))
     return {'spec': spec, 'ops': ops}
@@ -818,16 +967,18 @@ def case_from_json(j):
         if t[0] in ('cid', 'ref'):
             return (t[0], t[1])
         if t[0] == 'const':
-            return ('const', Fraction(t[1]))
+            return ('const', Fraction(t[1])) + tuple(t[2:])
         return ('bin', t[1], tj(t[2]), tj(t[3]))
     spec = dict(j['spec'])
-    spec['stored'] = [(tuple(f), [Fraction(x) for x in v]) for f, v in spec['stored']]
+    spec['stored'] = [(tuple(st[0]), [Fraction(x) for x in st[1]]) + tuple(st[2:]) for st in spec['stored']]
     ops = []
     for op in j['ops']:
         if op[0] == 'add':
             ops.append(['add', op[1], tj(op[2])])
         elif op[0] == 'redef':
             ops.append(['redef', op[1], op[2], tj(op[3])])
+        elif op[0] == 'addto':
+            ops.append(['addto', op[1], tj(op[2]), op[3]])
         elif op[0] == 'query':
             ops.append(['query', op[1], None if op[2] is None else tuple(tuple(e) if isinstance(e, list) else e for e in op[2])])
         else:
@@ -1059,10 +1210,23 @@ def stream_random(R):
                             t = ('bin', t[1], ('ref', rng.choice(refs)), t[3])
                     if expanded_size(W, t) <= 2500:
                         do(['redef', tgt, how, t])
-            elif r < 0.94:
+            elif r < 0.90:
                 perm = list(live)
                 rng.shuffle(perm)
                 do(['reorder', perm])
+            elif r < 0.94:
+                do(['alias', rng.choice(derived)])
+            elif r < 0.98:
+                # a link that targets an existing attribute, registered under a new name
+                tgt = rng.choice(live)
+                t = force_depth(rng, live, rng.choice([1, 2]), [e for e in expo if e in live])
+                how = rng.choice([0, 1, 2])
+                if not leaves(t):
+                    t = ('bin', '+', ('cid', rng.choice(live)), t)
+                if how == 0 and t[0] != 'bin':
+                    t = ('bin', '*', t, ('const', Fraction(1)))
+                if expanded_size(W, t) <= 2500:
+                    do(['addto', how, t, tgt])
             live = W.order()
             derived = [x for x in live if x in W.defs]
             for _ in range(rng.choice([1, 2, 3])):
@@ -1158,6 +1322,27 @@ def stream_closure(R):
         cases.append({'spec': spec, 'ops': adds + [['updid', 2], ['query', pos['V'], None], ['remove', nb + 5]]})
         cases.append({'spec': spec, 'ops': adds + [['updid', pos['S']], ['remove', 2]]})
         cases.append({'spec': spec, 'ops': adds + [['redef', pos['S'], 0, b('*', c(2), k(2))], ['remove', 1]]})
+    # ---- links whose target differs from the name they are registered under
+    #      (A) one link object registered under two names  (B) a link "target can be computed as ..." to an existing attribute,
+    #      registered as a derived attribute under a new name.  Dependencies are the from-ids only.
+    for how in (0, 1, 2):
+        a_def = b('+', c(1), c(2))
+        regs = [['add', how, a_def], ['alias', nb], ['add', 0, b('*', c(nb), k(2))], ['add', 1, b('-', c(nb + 1), k(1))]]
+        for victim in range(1, nb + 4):
+            cases.append({'spec': spec, 'ops': regs + [['remove', victim]]})
+        cases.append({'spec': spec, 'ops': regs[:2] + [['remove', nb]]})
+        cases.append({'spec': spec, 'ops': regs[:2] + [['remove', nb + 1]]})
+        cases.append({'spec': spec, 'ops': regs + [['updid', nb + 1], ['remove', nb + 4], ['query', nb + 2, None]]})
+        cases.append({'spec': spec, 'ops': regs + [['alias', nb + 2], ['remove', nb + 4]]})
+        model = [['addto', how, b('*', c(1), k(2)), 2], ['add', 0, b('-', c(nb), c(1))]]       # y_model := 2 x targets y; resid
+        for victim in range(1, nb + 2):
+            cases.append({'spec': spec, 'ops': model + [['remove', victim]]})
+        cases.append({'spec': spec, 'ops': model + [['updid', 2], ['remove', nb + 2]]})
+        # a link that targets another DERIVED attribute, and a chain on top of it
+        deep = [['add', 0, b('+', c(2), k(1))], ['addto', how, b('*', c(1), c(1)), nb], ['add', 2, b('+', c(nb + 1), k(3))],
+                ['add', 0, b('*', c(nb), c(nb + 2))]]
+        for victim in range(1, nb + 4):
+            cases.append({'spec': spec, 'ops': deep + [['remove', victim]]})
     nshared = len(cases) - nshared0
     # ---- position order decoupled from dependency order (a dependent may precede its input)
     patterns4 = patterns + [{'A': [2], 'B': ['A'], 'C': ['B'], 'D': ['C']}]        # + a chain of depth 4
@@ -1215,6 +1400,86 @@ def stream_closure(R):
                    'interleaved), so that dependents precede their inputs; then removal of each attribute / update_id of an input followed by removal')
 
 
+DTYPES = ['uint8', 'int8', 'uint16', 'int16', 'int32', 'uint32', 'int64', 'float32', 'float64', 'bool']
+
+
+def dtype_values(dt):
+    """three values per dtype: near the upper limit, small, near the lower limit / zero"""
+    if dt == 'bool':
+        return [1, 0, 1]
+    if dt.startswith('float'):
+        return [Fraction(3, 2), Fraction(-200), Fraction(16777216 if dt == 'float32' else 2 ** 52)]
+    info = np.iinfo(dt)
+    return [int(info.max) if info.bits < 64 else 2 ** 40, 3, int(info.min) + (1 if info.min < 0 else 0) if info.bits < 64 else -7]
+
+
+def stream_dtypes(R):
+    """stored attributes of every numeric dtype combined with constants near and beyond the dtype's range"""
+    ic = lambda n: ('const', Fraction(n), 'int')
+    fc = lambda q: ('const', Fraction(q))
+    cases = []
+    consts = [ic(1), ic(2), ic(100), ic(300), ic(70000), ic(-1), ic(-129), ic(2 ** 31), ic(2 ** 33), fc(Fraction(1, 2)), fc(2), fc(-3)]
+    for di, dt in enumerate(DTYPES):
+        other = DTYPES[(di + 3) % len(DTYPES)]
+        spec = {'shape': [3], 'coords': None,
+                'stored': [((False,), [Fraction(v) for v in dtype_values(dt)], dt),
+                           ((False,), [Fraction(v) for v in dtype_values(other)], other),
+                           ((False,), [Fraction(2), Fraction(0), Fraction(3)], 'uint8')]}
+        x, y, e, new = ('cid', 1), ('cid', 2), ('cid', 3), 4
+        trees = []
+        for op in OPS:
+            for cst in consts:
+                if op == '**':
+                    if cst[1] < 0 or cst[1] > 3 or cst[1].denominator != 1:
+                        continue
+                    trees.append(('bin', op, x, cst))
+                    if cst[1] in (1, 2):
+                        trees.append(('bin', op, cst, e))
+                    continue
+                trees.append(('bin', op, x, cst))
+                trees.append(('bin', op, cst, x))
+            if op != '**':
+                trees += [('bin', op, x, y), ('bin', op, y, x), ('bin', op, ('cid', 0), x),
+                          ('bin', op, ('bin', '*', x, ic(2)), y), ('bin', op, ('bin', '+', x, ic(300)), ic(3)),
+                          ('bin', op, x, ('bin', '-', ic(1000), y))]
+        for ti, t in enumerate(trees):
+            hows = [0] if ti % 3 else [0, 1, 2]
+            for how in hows:
+                if how == 1 and any(leaf_weak_overflow(c_, dt, other) for c_ in consts_of(t)):
+                    continue      # numpy refuses a Python integer that does not fit the operand's dtype (OverflowError): not an expression value
+                q = [['query', new, None]] + ([['query', new, view_key((slice(None, None, -2),))]] if ti % 4 == 0 else [])
+                cases.append({'spec': spec, 'ops': [['add', how, t]] + q})
+    fl = []
+    for i in range(0, len(cases), 600):
+        fl += evaluate(R, cases[i:i + 600], 'dtypes')
+    report(R, fl)
+    R.sample({'stream': 'dtypes', 'case': jsonable_case(cases[7])})
+    R.stream('dtypes', cases=len(cases), exhaustive=True,
+             bound='stored attributes of dtype %s (values at the limits of the dtype) x {attribute op constant, constant op attribute} for 12 constants '
+                   '(Python ints up to 2**33 and floats, near and beyond the dtype range), attribute op attribute of another dtype, pixel op attribute, '
+                   'three nested forms; defined by operators (all), parsed text / user function (every third); exact class = every intermediate fits the '
+                   'dtype numpy resolves for the way the unchanged code evaluates that kind of definition' % ', '.join(DTYPES))
+
+
+def consts_of(t):
+    if t[0] == 'const':
+        return [t]
+    if t[0] == 'bin':
+        return consts_of(t[2]) + consts_of(t[3])
+    return []
+
+
+def leaf_weak_overflow(cst, *dts):
+    if len(cst) <= 2:
+        return False
+    for dt in dts:
+        if dt == 'bool' or dt.startswith('float'):
+            continue
+        if not representable(cst[1], np.dtype(dt)):
+            return True
+    return not representable(cst[1], np.dtype('uint8'))
+
+
 def stream_fancy(R):
     """oracle only: index arrays and boolean masks"""
     from glue.core.component_id import ComponentID
@@ -1265,6 +1530,7 @@ def run(R):
     R.rule = ('a case is a dataset (shape, coordinates, stored arrays with a chosen broadcast structure) plus a history of add-derived / remove / '
               'update_id / read steps; non-trivial when at least one element was compared exactly; distinct = distinct (dataset, history)')
     stream_closure(R)
+    stream_dtypes(R)
     stream_exhaustive(R)
     stream_random(R)
     stream_fancy(R)
